@@ -227,6 +227,8 @@ def handleC12 (kind : String) (fs : List (String × String)) : String :=
   match kind with
   | "rt" => handleRt fs
   | "mp" => Swim.Drv.Msgpack.handleMp fs
+  | "pkt" => handlePkt fs
+  | "aliveport" => Swim.Drv.Msgpack.handleAlivePort fs
   | _ => "PARSE kind"
 
 end Swim.Drv.Codec
